@@ -8,7 +8,7 @@ ID = "C17"
 LEVEL = "fault_enumeration"
 ENGINE = "E-hyp"
 TECHNIQUE = "fault injection over archives from an independent packer: generated file sets packed in Python, then every truncation point / length-field corruption / byte flip / missing terminator / absent and empty file; oracle = faithful listing and bytes for intact archives, good()==false or only intact entries for damaged ones, sanitizers silent, allocation cap, scratch directory unchanged"
-RULE = ("cases = archive (0-8 properties, 0-10 entries with names containing backslashes/spaces/high bytes, empty and binary contents <= 4 KB, optional checksum trailer) "
+RULE = ("cases = archive (0-8 properties, 0-10 entries with names containing backslashes/spaces/high bytes, names and property values of 120-1100 bytes around the 256/512-byte boundaries, empty and binary contents <= 4 KB, optional checksum trailer) "
         "x fault in {none, truncate at offset, set a 32-bit size/length field to 0/1/size+-1/2^31-1/2^32-1, flip one byte, drop the property or header terminator, absent file, "
         "zero-length file}; the quick tier samples faults, the thorough tier also enumerates every truncation point of small archives; non-trivial = a well-formed archive with "
         ">=2 entries including an empty one, or any fault case; distinct = SHA-1 of the case")
@@ -19,7 +19,7 @@ LEVEL_NOTE = ("Trusted: the Python packer in this file (written from the format 
               "ASan/UBSan and max_allocation_size_mb=64, SHA-1 of the scratch directory before/after. Compressed entries are not generated.")
 ASSUMPTIONS = ["entries are stored uncompressed", "the archive file is private to the case"]
 SIZES = {"quick": dict(budget_s=45, batch=100), "thorough": dict(budget_s=600, batch=200)}
-FLOORS = {"nontrivial": 0.6}
+FLOORS = {"nontrivial": 0.6, "string_256_or_longer": 0.1}
 
 
 def pack(props, entries, trailer):
@@ -44,16 +44,19 @@ def pack(props, entries, trailer):
 
 
 _name = st.lists(st.sampled_from(list("abcxyz019_ .") + ["\\", "\\", "\xe4", "\xff"]), min_size=1, max_size=12).map("".join).filter(lambda s: s.strip(" .\\") and not s.startswith("?"))
+# strings longer than the reader's 256-byte chunk: directory segments of <= 60 characters up to a total around the chunk boundaries
+_LONG = st.builds(lambda n, c, i: "\\".join([(c * 50 + str(i))] * 30)[:n].rstrip("\\ ."), st.sampled_from([120, 254, 255, 256, 257, 258, 300, 511, 512, 513, 700, 1100]), st.sampled_from("abxyz"), st.integers(0, 9))
+_name_any = st.one_of(*([_name] * 19 + [_LONG]))
 _data = st.one_of(st.just(b""), st.binary(max_size=64), st.binary(min_size=200, max_size=4096), st.sampled_from([b"x = 1;\n", b"class A {};\n", b"\0\0\0", b"#include \"a\"\n"]))
 
 
 @st.composite
 def _cases(draw):
     nprops = draw(st.integers(0, 4))
-    props = [("prefix", draw(st.sampled_from(["x\\addons\\main", "pre", "a\\b", "z"])))] + [(draw(st.sampled_from(["version", "author", "k1", "k2", "pboprefix2"])), draw(st.sampled_from(["1", "", "some value", "a\\b"]))) for _ in range(nprops)]
+    props = [("prefix", draw(st.sampled_from(["x\\addons\\main", "pre", "a\\b", "z"])))] + [(draw(st.sampled_from(["version", "author", "k1", "k2", "pboprefix2"])), draw(st.one_of(*([st.sampled_from(["1", "", "some value", "a\\b"])] * 9 + [_LONG])))) for _ in range(nprops)]
     if draw(st.integers(0, 5)) == 0:
         props = props[1:]
-    names = draw(st.lists(_name, min_size=0, max_size=10, unique_by=lambda s: s.lower()))
+    names = draw(st.lists(_name_any, min_size=0, max_size=10, unique_by=lambda s: s.lower()))
     entries = [(n, draw(_data)) for n in names]
     trailer = draw(st.booleans())
     fault = draw(st.sampled_from(["none", "none", "truncate", "truncate", "truncate", "field", "field", "flip", "flip", "noterm_props", "noterm_headers", "absent", "empty"]))
@@ -128,7 +131,10 @@ def check(case, env):
             fh.write(blob)
     before = _dir_state(d)
     labs = {"fault_" + f}
-    nontrivial = f != "none" or (len(entries) >= 2 and any(len(dt) == 0 for _n, dt in entries))
+    long_string = any(len(n) >= 256 for n, _d in entries) or any(len(k) >= 256 or len(val) >= 256 for k, val in props)
+    if long_string:
+        labs.add("string_256_or_longer")
+    nontrivial = f != "none" or long_string or (len(entries) >= 2 and any(len(dt) == 0 for _n, dt in entries))
     if nontrivial:
         labs.add("nontrivial")
     r = env.runner(timeout=15.0, max_alloc_mb=64)
